@@ -51,10 +51,48 @@ def identities(c):
                  {"ident_schedule": scheds[sess], "event": ev})
 
 
+def through_the_cache(c):
+    """The cache half of the property (cache/subcache.go MergeAll, repo_cache_common.go Pull): pulls through RepoCache in
+    sessions of two users; what is judged here is what a pull is answerable for - the step of the pull itself (the merged
+    entity is what the cache hands back and serves) and, at every later step, that no stored operation disappears."""
+    import json
+    import os
+    from . import c11
+    scheds = c11.catalogue() + c11.simulate(c, 12 if c.tier == "quick" else 400)
+    sf = os.path.join(c.scratch, "c02-cache-sched.ndjson")
+    tf = os.path.join(c.scratch, "c02-cache-trace.ndjson")
+    with open(sf, "w") as f:
+        for s in scheds:
+            f.write(json.dumps(s) + "\n")
+    c.vh(["cache", sf, tf], timeout=3200)
+    sessions = c11.split(tf)
+    n_ok, failures = c11.validate(c, sessions, "c02-cache")
+    c.cov["cache_sessions_validated"] = n_ok
+    c.cov["cache_pull_steps"] = sum(1 for s in sessions for l in s if '"ev":"Pull"' in l)
+    seen = set()
+    for sess, idx, reason, ev in failures:
+        if ev["ev"] == "Pull" or ev.get("lost", 0) > 0:
+            key = "cache-pull:%s:%s" % (ev["ev"], "lost" if ev.get("lost", 0) > 0 else "merged-result-not-served")
+            if key in seen:
+                continue
+            seen.add(key)
+            what = ("%d stored operation(s) disappeared (%s)" % (ev["lost"], ev.get("lostwhat", ""))) if ev.get("lost", 0) > 0 else \
+                "after the pull the cache does not serve the merged entities: " + ev.get("diff", "")[:600]
+            c.report(key, "pull through the cache, session %s event #%d %s(%s): %s" % (scheds[sess]["name"], idx, ev["ev"], ev["r"], what),
+                     {"cache_session": scheds[sess]})
+
+
 def run(c):
     identities(c)
+    through_the_cache(c)
     c01.run(c, inv=INV, bind=(False, True, False), sched_fn=schedules, mut=mutate, cls=classify)
-    c.cov["traces_validated_against_impl"] += c.cov.get("identity_traces_validated", 0)
+    c.cov["traces_validated_against_impl"] += c.cov.get("identity_traces_validated", 0) + c.cov.get("cache_sessions_validated", 0)
 
 
-replay = c01.replay
+def replay(c, rep):
+    if "cache_session" in rep["replay"]:
+        from . import c11
+        rep2 = dict(rep)
+        rep2["replay"] = {"session": rep["replay"]["cache_session"]}
+        return c11.replay(c, rep2)
+    return c01.replay(c, rep)
